@@ -193,6 +193,23 @@ func main() {
 			jobs = append(jobs, job{[]*textgen.Def{d}, l, "precedence"})
 		}
 	}
+	// 1b. long doc comments: a line comment may be longer than any reader buffer (4096 is bufio's default, 65536 bufio.Scanner's)
+	for _, d := range alpha {
+		if d.Kind == textgen.Import || d.DocBlock {
+			continue
+		}
+		for _, n := range []int{4000, 4090, 4092, 4093, 4094, 4095, 4096, 4097, 4100, 5000, 8190, 8200, 65530, 65536, 70000} {
+			if n > 5000 && d.Kind != textgen.Struct && d.Kind != textgen.Const {
+				continue
+			}
+			ld := *d
+			ld.Label = d.Label + fmt.Sprintf("+doc%d", n)
+			ld.Doc = []string{" " + strings.Repeat("x", n-1)}
+			for _, li := range []int{0, 4} { // canonical and CRLF
+				jobs = append(jobs, job{[]*textgen.Def{&ld, textgen.Alphabet(1)[0]}, textgen.Layouts[li], "long-doc"})
+			}
+		}
+	}
 	// 2. context independence: all sequences of length 2 (quick) and 3 (thorough) in the canonical layout,
 	//    and all sequences of length 2 in every layout (layout invariance on non-initial parser states)
 	a0, a1, a2 := textgen.Alphabet(0), textgen.Alphabet(1), textgen.Alphabet(2)
